@@ -74,6 +74,8 @@ class IsoDepInitiator(object):
         self.delta_fwt = 49152 / 13.56E6
         self.n_retry_ack = min(int(1/self.fwt), 5)
         self.n_retry_nak = self.n_retry_ack
+        self.n_max_wtx = 32  # consecutive waiting time extensions accepted
+        self.max_response_size = 65536 + 2  # largest extended length apdu
 
     def exchange(self, command, timeout=None):
         if timeout is None:
@@ -96,6 +98,9 @@ class IsoDepInitiator(object):
                     if len(data) == 0:
                         raise nfc.clf.TransmissionError
                     if data[0] == 0xA2 | (~self.pni & 1):
+                        if i > self.n_retry_nak + 1:
+                            log.error("ISO-DEP too many retransmit requests")
+                            raise Type4TagCommandError(nfc.tag.PROTOCOL_ERROR)
                         log.debug("ISO-DEP retransmit after ack")
                         data = pfb + command[offset:offset+self.miu]
                         continue
@@ -118,8 +123,13 @@ class IsoDepInitiator(object):
                     log.error("ISO-DEP unrecoverable protocol error")
                     raise Type4TagCommandError(nfc.tag.PROTOCOL_ERROR)
 
-            while data[0] & 0b11111110 == 0b11110010:  # WTX
+            for n_wtx in itertools.count(start=1):  # pragma: no branch
+                if data[0] & 0b11111110 != 0b11110010:  # not WTX
+                    break
                 log.debug("ISO-DEP waiting time extension")
+                if n_wtx > self.n_max_wtx:
+                    log.error("ISO-DEP protocol error: too many wtx requests")
+                    raise Type4TagCommandError(nfc.tag.PROTOCOL_ERROR)
                 data = self.clf.exchange(data, (data[1] & 0x3F) * self.fwt)
 
             if data[0] & 0x01 != self.pni:
@@ -171,8 +181,24 @@ class IsoDepInitiator(object):
                 log.error("ISO-DEP protocol error: block number")
                 raise Type4TagCommandError(nfc.tag.PROTOCOL_ERROR)
 
+            if data[0] & 0b11101110 != 0x02:
+                log.error("ISO-DEP protocol error: expected inf")
+                raise Type4TagCommandError(nfc.tag.PROTOCOL_ERROR)
+
+            if len(data) < 2:
+                log.error("ISO-DEP protocol error: empty chained block")
+                raise Type4TagCommandError(nfc.tag.PROTOCOL_ERROR)
+
             response = response + data[1:]
             self.pni = (self.pni + 1) % 2
+
+            if len(response) > self.max_response_size:
+                log.error("ISO-DEP protocol error: response too long")
+                raise Type4TagCommandError(nfc.tag.PROTOCOL_ERROR)
+
+        if len(response) > self.max_response_size:
+            log.error("ISO-DEP protocol error: response too long")
+            raise Type4TagCommandError(nfc.tag.PROTOCOL_ERROR)
 
         return response
 
